@@ -148,7 +148,9 @@ pub fn node_mut<C: ContextWithMutableVariables + Context<NumericTypes = DefaultN
 pub fn ep_same(a: &Ep, b: &Ep) -> bool {
     match (a, b) {
         (Ok(x), Ok(y)) => x.same(y),
-        (Err(x), Err(y)) => x == y || format!("{:?}", x) == format!("{:?}", y),
+        // by Debug text (exact payloads, any NaN equals any NaN): the library's own PartialEq on errors
+        // and values is part of what is being checked
+        (Err(x), Err(y)) => format!("{:?}", x) == format!("{:?}", y),
         _ => false,
     }
 }
